@@ -398,6 +398,9 @@ def call_attr(I, n, f, args, kwargs):
         if t1 is not None and t1.is_literal():
             return S(_ud.normalize(form, t1.text()))        # known characters: the rewriting is applied
         return args[1]
+    if src in ('itertools.product', 'product') and args and all(isinstance(a, Other) and a.d == 'range' for a in args) and not kwargs:
+        # the index tuples of nested loops over ranges
+        return ListV([Tup([Other('index') for _ in args])])
     if src is not None and src.startswith(('numpy.', 'np.', 'pandas.', 'math.')):
         hook = I.opts.get('numpy_hook')
         if hook is not None:
